@@ -180,3 +180,23 @@ def bloom_geometry(rng, small=True, max_bits=60000):
 
 def narrow32(x):
     return struct.unpack("f", struct.pack("f", x))[0]
+
+
+class DerivedHash:
+    """a strategy that agrees with `base` on part of the answer and differs on the rest (hand-written, pure):
+    mode 'first_only' : same first value, different values afterwards (like a legacy chained default next to the seeded default)
+    mode 'all_but_last': same values except the one at index `depth_at`-1"""
+
+    def __init__(self, base, mode, depth_at=None):
+        self.base, self.mode, self.depth_at = base, mode, depth_at
+
+    def __call__(self, key, depth=1):
+        vals = list(self.base(key, depth))
+        if self.mode == "first_only":
+            return vals[:1] + [(v ^ 0x5BD1E995) + 1 for v in vals[1:]]
+        if self.depth_at is not None and depth >= self.depth_at:
+            vals[self.depth_at - 1] = (vals[self.depth_at - 1] ^ 0x9E3779B9) + 1
+        return vals
+
+    def __repr__(self):
+        return f"DerivedHash({self.mode})"
